@@ -146,6 +146,8 @@ def _run_net(ctx: Ctx):
         nontrivial = False
         for op, a in zip(case["ops"], model):
             ctx.count("net-op:" + op["op"])
+            if op["op"] == "service":
+                ctx.count("net-service:" + a.split()[0])
             if op["op"] == "ping":
                 ctx.count("net-ping:" + a.split()[0])
                 toks = a.split()[1:]
